@@ -28,6 +28,11 @@ ValidNameCps(cs) == cs # <<>> /\ \A i \in 1..Len(cs) :
                        (cs[i] >= 48 /\ cs[i] <= 57) \/ (cs[i] >= 65 /\ cs[i] <= 90) \/ (cs[i] >= 97 /\ cs[i] <= 122) \/ cs[i] = 95
                        \/ cs[i] \in {233, 955, 1078}     \* letters beyond ASCII used by the driver
 
+\* C20 (E4): the shapes a registered Go function may have: any parameters, one result or a result and an error.
+\* The driver registers, now and then, a value of another shape (recorded as val.shape); it must be rejected.
+ValidShape(v) == ~("shape" \in DOMAIN v) \/ v.shape \in {"ok1", "ok2"}
+Registrable(e) == ValidNameCps(e.nmcps) /\ ValidShape(e.val)
+
 TraceInit == ApiInit /\ l = 1
 
 TReset ==
@@ -39,11 +44,11 @@ TReset ==
 TRegisterGlobal ==
     /\ IsEvent("RegisterGlobal")
     /\ nops' = nops
-    /\ IF ValidNameCps(Ev.nmcps)
+    /\ IF Registrable(Ev)
        THEN /\ RegisterGlobal(Ev.nm, Ev.val)
             /\ (IF Ev.ok THEN TRUE ELSE Report(Ev.id, "no;valid-registration-rejected"))
        ELSE /\ UNCHANGED <<greg, expr, heap, hist, gsnap, locals>>          \* rejected: nothing changes
-            /\ (IF ~Ev.ok THEN TRUE ELSE Report(Ev.id, "no;invalid-name-accepted"))
+            /\ (IF ~Ev.ok THEN TRUE ELSE Report(Ev.id, IF ValidNameCps(Ev.nmcps) THEN "no;invalid-shape-accepted" ELSE "no;invalid-name-accepted"))
 
 TCompile ==
     /\ IsEvent("Compile")
@@ -53,11 +58,11 @@ TCompile ==
 TRegisterExpr ==
     /\ IsEvent("RegisterExpr")
     /\ nops' = nops
-    /\ IF ValidNameCps(Ev.nmcps)
+    /\ IF Registrable(Ev)
        THEN /\ RegisterExpr(Ev.e, Ev.nm, Ev.val)
             /\ (IF Ev.ok THEN TRUE ELSE Report(Ev.id, "no;valid-registration-rejected"))
        ELSE /\ UNCHANGED <<greg, expr, heap, hist, gsnap, locals>>
-            /\ (IF ~Ev.ok THEN TRUE ELSE Report(Ev.id, "no;invalid-name-accepted"))
+            /\ (IF ~Ev.ok THEN TRUE ELSE Report(Ev.id, IF ValidNameCps(Ev.nmcps) THEN "no;invalid-shape-accepted" ELSE "no;invalid-name-accepted"))
 
 TSetDoc ==
     /\ IsEvent("SetDoc")
